@@ -132,6 +132,8 @@ structure Sim (t : Tx) (s : Spec) : Prop where
   clean : Clean t.mem
   params : t.params = s.params
   funcs : t.funcs = s.funcs
+  gfuncs : t.gfuncs = s.gfuncs
+  config : t.config = s.config
   sheets : t.sheets = s.sheets
   sources : t.sources = s.sources
 
@@ -139,44 +141,53 @@ theorem observe_sim {t : Tx} {s : Spec} (h : Sim t s) (a b : Option String) :
     observe t a b = observe s.fresh a b := by
   unfold observe
   have hc : view (run setup t.mem) = view (run setup s.fresh.mem) := h.clean
-  simp only [hc, h.params, h.funcs, Spec.fresh]
+  simp only [hc, h.params, h.funcs, h.gfuncs, h.config, Spec.fresh]
 
 theorem step_sim (hh : headIsPop = true) (hd : startDetermined = true)
     (hv : (volatileIds.contains vsIndex && volatileIds.contains vsStack) = true)
     {t : Tx} {s : Spec} (h : Sim t s) (op : Op) (hop : op.MidOk) :
     Sim (step t op).1 (s.step op).1 ∧ (step t op).2 = (s.step op).2 := by
-  obtain ⟨hc, hp, hf, hs, hso⟩ := h
-  have hsim : Sim t s := ⟨hc, hp, hf, hs, hso⟩
+  obtain ⟨hc, hp, hf, hg, hcf, hs, hso⟩ := h
+  have hsim : Sim t s := ⟨hc, hp, hf, hg, hcf, hs, hso⟩
   cases op with
   | compile slot sheet ok =>
-    cases ok <;> simp [step, Spec.step, Spec.fresh, Tx.init, hs] <;> exact ⟨hc, hp, hf, by simp [hs], hso⟩
+    cases ok <;> simp [step, Spec.step, Spec.fresh, Tx.init, hs] <;> exact ⟨hc, hp, hf, hg, hcf, by simp [hs], hso⟩
   | parse slot src ok =>
-    cases ok <;> simp [step, Spec.step, Spec.fresh, Tx.init, hso] <;> exact ⟨hc, hp, hf, hs, by simp [hso]⟩
+    cases ok <;> simp [step, Spec.step, Spec.fresh, Tx.init, hso] <;> exact ⟨hc, hp, hf, hg, hcf, hs, by simp [hso]⟩
   | setParamExpr k e =>
     simp only [step, Spec.step, Spec.fresh, and_true]
-    exact ⟨hc, by simp [hp], hf, hs, hso⟩
+    exact ⟨hc, by simp [hp], hf, hg, hcf, hs, hso⟩
   | setParamNum k v =>
     simp only [step, Spec.step, Spec.fresh, and_true]
-    exact ⟨hc, by simp [hp], hf, hs, hso⟩
+    exact ⟨hc, by simp [hp], hf, hg, hcf, hs, hso⟩
   | clearParams =>
     simp only [step, Spec.step, Spec.fresh, and_true]
-    exact ⟨hc, rfl, hf, hs, hso⟩
+    exact ⟨hc, rfl, hf, hg, hcf, hs, hso⟩
   | install f =>
     simp only [step, Spec.step, Spec.fresh, and_true]
-    exact ⟨hc, hp, by simp [hf], hs, hso⟩
+    exact ⟨hc, hp, by simp [hf], hg, hcf, hs, hso⟩
   | uninstall f =>
     simp only [step, Spec.step, Spec.fresh, and_true]
-    exact ⟨hc, hp, by simp [hf], hs, hso⟩
+    exact ⟨hc, hp, by simp [hf], hg, hcf, hs, hso⟩
+  | ginstall f =>
+    simp only [step, Spec.step, Spec.fresh, and_true]
+    exact ⟨hc, hp, hf, by simp [hg], hcf, hs, hso⟩
+  | guninstall f =>
+    simp only [step, Spec.step, Spec.fresh, and_true]
+    exact ⟨hc, hp, hf, by simp [hg], hcf, hs, hso⟩
+  | config n v =>
+    simp only [step, Spec.step, Spec.fresh, and_true]
+    exact ⟨hc, hp, hf, hg, by simp [hcf], hs, hso⟩
   | destroySheet slot =>
     simp only [step, Spec.step, Spec.fresh, hs]
     cases s.sheets.lookup slot with
-    | none => exact ⟨⟨hc, hp, hf, hs, hso⟩, rfl⟩
-    | some x => exact ⟨⟨hc, hp, hf, by simp [hs], hso⟩, rfl⟩
+    | none => exact ⟨⟨hc, hp, hf, hg, hcf, hs, hso⟩, rfl⟩
+    | some x => exact ⟨⟨hc, hp, hf, hg, hcf, by simp [hs], hso⟩, rfl⟩
   | destroySource slot =>
     simp only [step, Spec.step, Spec.fresh, hso]
     cases s.sources.lookup slot with
-    | none => exact ⟨⟨hc, hp, hf, hs, hso⟩, rfl⟩
-    | some x => exact ⟨⟨hc, hp, hf, hs, by simp [hso]⟩, rfl⟩
+    | none => exact ⟨⟨hc, hp, hf, hg, hcf, hs, hso⟩, rfl⟩
+    | some x => exact ⟨⟨hc, hp, hf, hg, hcf, hs, by simp [hso]⟩, rfl⟩
   | transform sheet src mid =>
     simp only [step, Spec.step, hs, hso]
     cases s.sheets.lookup sheet with
@@ -185,11 +196,11 @@ theorem step_sim (hh : headIsPop = true) (hd : startDetermined = true)
       cases s.sources.lookup src with
       | none => exact ⟨hsim, rfl⟩
       | some so =>
-        refine ⟨⟨clean_afterTransform hh hd hv t mid hop, hp, hf, hs, hso⟩, ?_⟩
+        refine ⟨⟨clean_afterTransform hh hd hv t mid hop, hp, hf, hg, hcf, hs, hso⟩, ?_⟩
         simp only [observe_sim hsim]
   | transformSrc sheet src mid =>
     simp only [step, Spec.step]
-    refine ⟨⟨clean_afterTransform hh hd hv t mid hop, hp, hf, hs, hso⟩, ?_⟩
+    refine ⟨⟨clean_afterTransform hh hd hv t mid hop, hp, hf, hg, hcf, hs, hso⟩, ?_⟩
     simp only [observe_sim hsim]
 
 theorem runOps_sim (hh : headIsPop = true) (hd : startDetermined = true)
@@ -204,7 +215,7 @@ theorem runOps_sim (hh : headIsPop = true) (hd : startDetermined = true)
     simp only [runOps, Spec.runOps]
     exact ⟨h2.1, by rw [h1.2, h2.2]⟩
 
-theorem sim_init : Sim Tx.init Spec.init := ⟨clean_fresh, rfl, rfl, rfl, rfl⟩
+theorem sim_init : Sim Tx.init Spec.init := ⟨clean_fresh, rfl, rfl, rfl, rfl, rfl, rfl⟩
 
 /-! ### parameters -/
 
